@@ -17,24 +17,24 @@ import (
 )
 
 type World struct {
-	repo      string
-	fset      *token.FileSet
-	pkgs      []*packages.Package
-	prog      *ssa.Program
-	spkgs     map[string]*ssa.Package // by path
-	tpkgs     map[string]*types.Package
-	funcs     map[string]*ssa.Function // absolute name -> function (all functions incl. anonymous)
-	contracts map[string]*Contract     // absolute function name -> contract
-	defs      map[string]*SpecDef
-	defOrder  []string
-	so        *Sorts
-	heapSorts map[string]string
-	mutGlobal map[*ssa.Global]bool
-	notes     []string
+	repo                string
+	fset                *token.FileSet
+	pkgs                []*packages.Package
+	prog                *ssa.Program
+	spkgs               map[string]*ssa.Package // by path
+	tpkgs               map[string]*types.Package
+	funcs               map[string]*ssa.Function // absolute name -> function (all functions incl. anonymous)
+	contracts           map[string]*Contract     // absolute function name -> contract
+	defs                map[string]*SpecDef
+	defOrder            []string
+	so                  *Sorts
+	heapSorts           map[string]string
+	mutGlobal           map[*ssa.Global]bool
+	notes               []string
 	contractFilesInRepo map[string]string // pkg -> "repo" | "mirror"
-	assumedUsed map[string]bool
-	aliases     map[string]map[string]string // package path -> import alias -> import path
-	genericIdx  map[string]*ssa.Function
+	assumedUsed         map[string]bool
+	aliases             map[string]map[string]string // package path -> import alias -> import path
+	genericIdx          map[string]*ssa.Function
 }
 
 const contractFileName = "zz_contracts_verif.go"
@@ -412,7 +412,6 @@ func (w *World) lookupType(expr string, pkgPath string) (types.Type, error) {
 	return nil, fmt.Errorf("cannot resolve type %q in %s: %v", expr, pkgPath, err)
 }
 
-
 // funcOf resolves a contract key (possibly "name@variant") to the SSA function.
 func (w *World) funcOf(key string) *ssa.Function {
 	if i := strings.LastIndex(key, "@"); i >= 0 {
@@ -440,7 +439,6 @@ func (w *World) funcOf(key string) *ssa.Function {
 	}
 	return w.genericIdx[key]
 }
-
 
 // interfaceMethodExists: "(pkg/path.Iface).Method" names a method of an interface type that exists.
 func (w *World) interfaceMethodExists(abs string) bool {
